@@ -45,9 +45,12 @@ type Scenario struct {
 	TimeoutUs int        `json:"timeout_us,omitempty"` // when > 0 (or -1 for a zero timeout) it replaces TimeoutMs: try-push style timeouts
 	Warmup    []PushSpec `json:"warmup,omitempty"`     // pushed (by one producer) and drained before the pins
 	Pins      []int      `json:"pins,omitempty"`
-	Rush      bool       `json:"rush,omitempty"`       // push, cancel and Wait right after New, without settling
-	Waiters   int        `json:"waiters,omitempty"`    // concurrent Wait() callers (default 1)
-	EarlyWait bool       `json:"early_wait,omitempty"` // the extra Wait() callers are already parked in Wait when the cancel comes
+	Rush      bool       `json:"rush,omitempty"`    // push, cancel and Wait right after New, without settling
+	Waiters   int        `json:"waiters,omitempty"` // concurrent Wait() callers (default 1)
+	// Born: the context has already ended when New is called - cancelled, or (Cancel.Kind deadline)
+	// past its deadline. Used together with Rush: pushes and Wait follow at once.
+	Born      bool `json:"born,omitempty"`
+	EarlyWait bool `json:"early_wait,omitempty"` // the extra Wait() callers are already parked in Wait when the cancel comes
 	// SlowPoint/SlowLane: the hook holds that lane's goroutine for 100 µs at that point on every hit
 	// (a directed delay at a genuine preemption point, on top of the hashed perturbation)
 	SlowPoint string       `json:"slow_point,omitempty"`
